@@ -2,7 +2,7 @@
 # tools/seedbatch.sh <offset> [ids...] : evaluate /tmp/seed-<ID>-out/patchN.diff as <ID>-(N+offset)
 off=$1; shift
 ids=${*:-C01 C02 C03 C04 C05 C06 C07 C08 C09 C10 C11 C12 C13 C14 C15 C16 C17 C18 C19 C20}
-for id in $ids; do for n in 1 2; do
+for id in $ids; do for n in 1 2 3; do
   if [ -f /tmp/seed-$id-out/patch$n.diff ] && [ -f /tmp/seed-$id-out/demo$n.py ]; then
     echo "$id $n"
   fi
